@@ -15,6 +15,21 @@ use verif_harness::*;
 
 /// known-finding class: decided by the input alone (the weight type)
 const KF_UNSIGNED: &str = "arcswap-unsigned-weights";
+/// known-finding class: decided by the input alone (total vertex weight >= 2^53, i64 weights)
+const KF_BIG: &str = "arcswap-share-rounding-above-2p53";
+
+/// known_findings.json (never written at run time) has an open entry of this class
+fn kf_open(out: &str, class: &str) -> bool {
+    std::fs::read_to_string(format!("{}/../../../known_findings.json", out))
+        .map(|t| {
+            t.match_indices(class).any(|(i, _)| {
+                let lo = t[..i].rfind('{').unwrap_or(0);
+                let hi = t[i..].find('}').map(|x| x + i).unwrap_or(t.len());
+                t[lo..hi].contains("\"open\"")
+            })
+        })
+        .unwrap_or(false)
+}
 
 // ------------------------------------------------------------------ graph
 
@@ -929,19 +944,10 @@ fn main() {
     // The unsigned-weights stream exhibits a known finding (the subtraction `max_part_weight - pw`
     // underflows for a part above the cap); it runs when known_findings.json (never written at
     // run time) has an open entry of that class, or when VERIF_C05_UNSIGNED=1.
-    let unsigned_stream = std::env::var("VERIF_C05_UNSIGNED").map(|v| v == "1").unwrap_or(false)
-        || std::fs::read_to_string(format!("{}/../../../known_findings.json", a.out))
-            .map(|t| {
-                t.lines().any(|l| l.contains(KF_UNSIGNED) && l.contains("\"open\""))
-                    || (t.contains(KF_UNSIGNED) && {
-                        // entry spread over several lines
-                        let i = t.find(KF_UNSIGNED).unwrap();
-                        let lo = t[..i].rfind('{').unwrap_or(0);
-                        let hi = t[i..].find('}').map(|x| x + i).unwrap_or(t.len());
-                        t[lo..hi].contains("\"open\"")
-                    })
-            })
-            .unwrap_or(false);
+    let unsigned_stream = std::env::var("VERIF_C05_UNSIGNED").map(|v| v == "1").unwrap_or(false) || kf_open(&a.out, KF_UNSIGNED);
+    // Same for i64 weights whose total is 2^53 or more: `(max_part_weight - pw) as f64` rounds, the
+    // share can exceed the headroom and a part can end above the cap (docs/C05.md).
+    let big_stream = std::env::var("VERIF_C05_BIG").map(|v| v == "1").unwrap_or(false) || kf_open(&a.out, KF_BIG);
     // plan: systematic sweeps over preemption points first, random cases after
     let thorough = a.tier == "thorough";
     let mut sweep: Vec<(usize, Vec<usize>)> = Vec::new(); // (base, preemption points)
@@ -1024,6 +1030,35 @@ fn main() {
                 c.fscale = Some(*r.pick(&[0.1, 0.3, 1.0 / 3.0, 1e-3, 2.5]));
                 c.csr = false;
                 c.family = format!("f64_{}", c.family);
+            } else if big_stream && idx % 25 == 13 {
+                // known-finding stream: a heavy vertex next to a light one, one worker, cap = None;
+                // the headroom of the light part is about 2^b and is rounded by `as f64`
+                let b = r.range(53, 61) as u32;
+                let ulp = 1i64 << (b - 52);
+                let (heavy, light) = if r.chance(1, 3) {
+                    ((1i64 << b) + r.range(1, 4 * ulp), r.range(1, 3))
+                } else if b == 53 {
+                    // tie, rounds to the even mantissa: heavy - 1 -> heavy
+                    ((1i64 << b) + 4 * r.range(0, 1000), 1)
+                } else {
+                    // heavy is a binary64 number and light is below half an ulp: heavy - light -> heavy
+                    ((1i64 << b) + ulp * r.range(0, 1000), r.range(1, ulp / 2 - 1))
+                };
+                let mut g = AdjGraph::new(2);
+                g.edge(0, 1, 1);
+                c = Case {
+                    family: "big_i64".to_string(),
+                    g,
+                    vw: vec![heavy, light],
+                    p0: vec![0, 1],
+                    threads: 1,
+                    mi: None,
+                    policy: Policy::Uniform,
+                    sseed: r.next(),
+                    csr: false,
+                    unsigned: false,
+                    fscale: None,
+                };
             } else if unsigned_stream && idx % 20 == 19 {
                 // known-finding stream: unsigned weights, a tight cap, an unbalanced input
                 c.unsigned = true;
@@ -1139,6 +1174,8 @@ fn main() {
                 format!("\"kf\":\"{}\",\"weight_type\":\"u64\",", KF_UNSIGNED)
             } else if let Some(f) = c.fscale {
                 format!("\"weight_type\":\"f64\",\"weight_scale\":{},", f)
+            } else if c.vw.iter().map(|x| *x as i128).sum::<i128>() >= (1i128 << 53) {
+                format!("\"kf\":\"{}\",\"weight_type\":\"i64\",", KF_BIG)
             } else {
                 "\"weight_type\":\"i64\",".to_string()
             },
